@@ -609,4 +609,53 @@ func scenarioC12(r *Run) {
 	}
 	r.NonTriv = true
 	r.Count("sessions_intact")
+
+	// ---- a path that repeats a datagram: one data query that is ahead of the next expected packet (a gap in
+	// front of it) arrives again and again from the session's own address. It is the client speaking, so the
+	// session's stream is not judged any more; what the server keeps for the session must stay bounded by the
+	// number of distinct packets, not grow with the number of copies.
+	if side != "server" || !c.Chance(1, 2, "repeated-future-packet") {
+		return
+	}
+	nextOut, nextIn := dc.SimNextSeq()
+	ahead := uint16(1 + c.Pick(100, "ahead"))
+	payload := make([]byte, 20+c.Pick(80, "repeat-bytes"))
+	prfFill(0x12c0de, 0, payload)
+	req := &commands.PacketRequest{UserId: uid, LastAckedSeqNo: nextIn - 1, Packet: &dnsutil.Packet{SeqNo: nextOut + ahead, Data: payload}}
+	msg, err := dc.Serializer.EncodeDnsRequest(req)
+	if err != nil {
+		r.Count("unpackable_generated_name")
+		return
+	}
+	data, err := msg.Pack()
+	if err != nil {
+		r.Count("unpackable_generated_name")
+		return
+	}
+	pc.noVerify, ps.noVerify = true, true
+	copies := 200 + c.Pick(400, "copies")
+	var b4, aft runtime.MemStats
+	synctest.Wait()
+	runtime.ReadMemStats(&b4)
+	for i := 0; i < copies; i++ {
+		r.Net.Inject("udp", clientAddr, &net.UDPAddr{IP: net.ParseIP(ServerIP), Port: 5353}, data)
+		if i%16 == 15 {
+			r.RunFor(50 * time.Millisecond)
+		}
+	}
+	r.RunFor(2 * time.Second)
+	runtime.ReadMemStats(&aft)
+	r.CountN("repeated_future_packets", copies)
+	held, ok := sdns.SimServerHeldPackets(srv)
+	if ok && held > 2 {
+		r.FailSig("unbounded-retention", "kind=repeated-future-packet", "%d copies of one data query (packet #%d, %d ahead of the next expected one) left the server holding %d packets for the session", copies, nextOut+ahead, ahead, held)
+		return
+	}
+	if delta := aft.TotalAlloc - b4.TotalAlloc; delta > 64<<20 {
+		r.FailSig("unbounded-allocation", "kind=repeated-future-packet", "%d copies of one data query made the server allocate %d bytes", copies, delta)
+		return
+	}
+	if ok {
+		r.Count("retention_bounded")
+	}
 }
